@@ -795,6 +795,35 @@ func main() {
 		}
 		g.add("random", p)
 	}
+	// whole ABI documents: one invalid parameter at every position of a 3-entry document (inputs and
+	// outputs, first/middle/last entry), and an invalid member deep inside a tuple
+	{
+		ok := func() *param { return leaf("uint256") }
+		bads := []*param{leaf("uint008"), leaf("tuple7"), leaf("uint7"), leaf(""), {T: "tuple[2]", C: []*param{leaf("bool"), leaf("bytes33")}}}
+		for e := 0; e < 3; e++ {
+			for side := 0; side < 2; side++ {
+				for pos := 0; pos < 2; pos++ {
+					for bi, bad := range bads {
+						if (e+side+pos+bi)%2 == 1 && bi > 1 {
+							continue
+						}
+						var es [][2][]*param
+						for k := 0; k < 3; k++ {
+							x := [2][]*param{{ok(), ok()}, {ok(), ok()}}
+							if k == e {
+								x[side][pos] = bad
+							}
+							es = append(es, x)
+						}
+						g.addABI("abi:positions", es)
+					}
+				}
+			}
+		}
+		g.addABI("abi:positions", nil)
+		g.addABI("abi:positions", [][2][]*param{{nil, nil}})
+		g.addABI("abi:positions", [][2][]*param{{{ok()}, nil}, {nil, {ok()}}})
+	}
 	// whole ABI documents: first error wins, inputs before outputs
 	for i := 0; i < nAbi; i++ {
 		var es [][2][]*param
